@@ -10,7 +10,7 @@ Open Scope Z_scope.
 
 Lemma yearly_step_last : forall r rl k cnt s,
   normalize r = Ok rl -> yfam_u r -> at_pass_c r rl k cnt s ->
-  2 <= r_y r + k * r_interval r <= 9999 -> 9999 < r_y r + (k + 1) * r_interval r ->
+  1 <= r_y r + k * r_interval r <= 9999 -> 9999 < r_y r + (k + 1) * r_interval r ->
   r_byeaster r = None ->
   exists acc' cnt' b, sp_take r (step_items r k) cnt (c_out s) = (acc', cnt', b) /\
     (exists t, step rl s = inr (acc', t)) /\
@@ -30,9 +30,9 @@ Proof.
     unfold between in *. lia. }
   destruct Hitv as [Hitv Hwk].
   set (y := r_y r + k * r_interval r) in *.
-  assert (Hy : 2 <= y <= 9999) by (unfold y; lia).
+  assert (Hy : 1 <= y <= 9999) by (unfold y; lia).
   rewrite Ay, Am in Ar.
-  assert (HEy : r_byeaster r = None \/ 1583 <= y <= 4099).
+  assert (HEy : r_byeaster r = None \/ 1583 <= y <= 4098).
   { left; exact HE. }
   destruct (yearly_pass_full_u r rl k (r_m r) (c_ii s) cnt (c_out s) HN Y Hy HEy Ar)
     as (ds & ds' & f & out' & c1 & s1 & c1' & b1 & E1 & E2 & E3 & E4 & G2 & G3 & G4).
@@ -80,7 +80,7 @@ Qed.
 
 Lemma yearly_run_dead_until_all : forall r rl limit n k cnt s,
   normalize r = Ok rl -> yfam_u r -> r_byeaster r = None -> at_pass_c r rl k cnt s -> 0 <= k ->
-  2 <= r_y r -> r_y r + k * r_interval r <= 9999 ->
+  1 <= r_y r -> r_y r + k * r_interval r <= 9999 ->
   sp_after_until r (jan1 (r_y r + k * r_interval r), 0) = true ->
   fst (run rl limit n s) = c_out s.
 Proof.
@@ -88,7 +88,7 @@ Proof.
   - reflexivity.
   - destruct (limit <=? zlen (c_out s)); [reflexivity|].
     pose proof Y as [HW Hfr Hp Hsp Hs]. pose proof (wf_itv r HW) as Hitv.
-    assert (Hyk : 2 <= r_y r + k * r_interval r) by nia.
+    assert (Hyk : 1 <= r_y r + k * r_interval r) by nia.
     destruct (Z_le_gt_dec (r_y r + (k + 1) * r_interval r) 9999) as [Hn|Hn].
     + destruct (yearly_step_u r rl k cnt s HN Y A Hyk Hn (or_introl He)) as (acc' & cnt' & b & ET & Hcase & Hau).
       specialize (Hau AU).
@@ -105,13 +105,13 @@ Qed.
 
 Lemma yearly_run_is_spec_all : forall r rl limit n k cnt s,
   normalize r = Ok rl -> yfam_u r -> r_byeaster r = None -> at_pass_c r rl k cnt s -> 0 <= k ->
-  2 <= r_y r -> r_y r + k * r_interval r <= 9999 ->
+  1 <= r_y r -> r_y r + k * r_interval r <= 9999 ->
   fst (run rl limit n s) = fst (spec_loop r limit n k cnt (c_out s)).
 Proof.
   intros r rl limit n. induction n as [|n IH]; intros k cnt s HN Y He A Hk Hlo Hhi.
   - reflexivity.
   - pose proof Y as [HW Hfr Hp Hsp Hs]. pose proof (wf_itv r HW) as Hitv.
-    assert (Hyk : 2 <= r_y r + k * r_interval r) by nia.
+    assert (Hyk : 1 <= r_y r + k * r_interval r) by nia.
     assert (B : jan1 (r_y r + k * r_interval r) <= max_ord).
     { rewrite jan1_eq.
       assert (days_before_year (r_y r + k * r_interval r) + 1 <= days_before_year (r_y r + k * r_interval r + 1))
@@ -149,7 +149,7 @@ Qed.
 
 (* the YEARLY family theorem for EVERY number of passes (rules without BYEASTER) *)
 Theorem yearly_iter_correct_all : forall r rl limit n,
-  normalize r = Ok rl -> yfam_u r -> r_byeaster r = None -> 2 <= r_y r ->
+  normalize r = Ok rl -> yfam_u r -> r_byeaster r = None -> 1 <= r_y r ->
   fst (iterate rl limit n) = fst (spec_iter r limit n).
 Proof.
   intros r rl limit n HN Y He Hlo.
@@ -167,11 +167,12 @@ Proof.
     match goal with H : valid_ymd _ _ _ = true |- _ => unfold valid_ymd in H end.
     unfold between in *. lia. }
   destruct Hwf as (Hitv & Hwk & Hy9).
-  assert (Hy0 : 2 <= r_y r <= 9999) by lia.
+  assert (Hy0 : 1 <= r_y r <= 9999) by lia.
   destruct (rebuild_succeeds rl (r_y r) (r_m r) Hy0 ltac:(rewrite Nwk; exact Hwk) TN (or_introl TE)) as (ii0 & R0).
   pose proof (timeset_is_spec r rl HN HW ltac:(rewrite Hfr; reflexivity)) as HT.
-  unfold iterate, init_state. rewrite Ny, Nm, Nd, R0. cbn [bind].
-  rewrite Nfr. change (YEARLY <? HOURLY) with true. cbv iota. rewrite HT. cbn [bind]. rewrite Nc.
+  unfold iterate, init_state. rewrite Nfr. change (YEARLY =? WEEKLY) with false. cbn [andb]. cbv iota.
+  rewrite Ny, Nm, Nd, R0. cbn [bind].
+  change (YEARLY <? HOURLY) with true. cbv iota. rewrite HT. cbn [bind]. rewrite Nc.
   unfold spec_iter.
   set (s0 := mkSt _ _ _ _ _ _ _ _ _ _ _).
   assert (A0 : at_pass_c r rl 0 (r_count r) s0).
